@@ -278,6 +278,14 @@ func (w *World) detectRenames() {
 	if json.Unmarshal(anchorsJSON, &tab) != nil || tab.Types == nil {
 		return
 	}
+	for rel, rec := range tab.Types {
+		if recordedTypeNames[rel] == nil {
+			recordedTypeNames[rel] = map[string]bool{}
+		}
+		for nm := range rec {
+			recordedTypeNames[rel][nm] = true
+		}
+	}
 	for rel, rec := range tab.Funcs {
 		for k, af := range rec {
 			if af.Full != "" {
